@@ -227,3 +227,63 @@ def real_widths(inputs, layout, shape="any", b=None, prefix="w"):
     for ci, nb in enumerate(layout):
         out.append([b if (shape == "fixed" and k < nb - 1) else inputs[f"{prefix}{ci}_{k}"] for k in range(nb)])
     return out
+
+
+# ---------------------------------------------------------------------------
+# arbitrary valid collections, constructed directly in the store (assume/guarantee, DESIGN 2.4)
+# ---------------------------------------------------------------------------
+def build_cooler_sym(path, bins, b1, b2, cols, upper=True, group="/", dtypes=None, mode="w"):
+    """Write a collection whose pixel table is the given (symbolic) sorted records straight into symh5:
+    the real create() produces the skeleton from an empty stream, then pixels/indexes/attrs are set to the
+    state any valid history would have left (C02 predicate holds by construction)."""
+    from engine import symh5
+    from .common import symcooler, csr_offsets
+    sc = symcooler()
+    n = len(bins)
+    uri = path if group == "/" else path + "::" + group
+    dts = {"bin1_id": "int64", "bin2_id": "int64", "count": "int32"}
+    dts.update(dtypes or {})
+    empty = {k: SArr([], dts.get(k, "float64")) for k in ["bin1_id", "bin2_id", *cols]}
+    sc.create_cooler(uri, bins, iter([empty]), columns=list(cols), dtypes={k: dts.get(k, "float64") for k in cols},
+                     ordered=True, symmetric_upper=upper, mode=mode)
+    f = symh5.File(path, "r+")
+    g = f[group]
+    K = len(b1)
+    for name, items in [("bin1_id", b1), ("bin2_id", b2), *cols.items()]:
+        d = g["pixels"][name]
+        d.resize((K,))
+        if K:
+            d[0:K] = SArr(list(items), dts.get(name, "float64"))
+    off = g["indexes/bin1_offset"]
+    off[0:n + 1] = SArr(csr_offsets(b1, n), "int64")
+    g.attrs["nnz"] = K
+    if "count" in cols:
+        g.attrs["sum"] = ssum(list(cols["count"])) if K else 0
+    return uri
+
+
+def build_cooler_real(path, bins, b1, b2, cols, upper=True, group="/", dtypes=None, mode="w"):
+    import cooler
+    import pandas as pd
+    dts = {"bin1_id": "int64", "bin2_id": "int64", "count": "int32"}
+    dts.update(dtypes or {})
+    uri = path if group == "/" else path + "::" + group
+    data = {"bin1_id": np.array(b1, dtype=dts["bin1_id"]), "bin2_id": np.array(b2, dtype=dts["bin2_id"])}
+    for k, v in cols.items():
+        data[k] = np.array(v, dtype=dts.get(k, "float64"))
+    cooler.create_cooler(uri, bins, iter([data]), columns=list(cols), dtypes={k: dts.get(k, "float64") for k in cols},
+                         ordered=True, symmetric_upper=upper, mode=mode)
+    return uri
+
+
+def read_pixels_sym(path, group="/"):
+    from engine import symh5
+    g = symh5.File(path, "r")[group]
+    return {k: list(g["pixels"][k][:]) for k in g["pixels"].keys()}, g.attrs
+
+
+def read_pixels_real(path, group="/"):
+    import h5py
+    with h5py.File(path, "r") as f:
+        g = f[group]
+        return {k: g["pixels"][k][:].tolist() for k in g["pixels"].keys()}, dict(g.attrs)
